@@ -685,12 +685,17 @@ class BaseTaskPool:
             for task_set in self._group_meta_tasks_running.values()
             for task in task_set
         )
-        with suppress(CancelledError):
-            await gather(
-                *self._meta_tasks_cancelled,
-                *not_cancelled_meta_tasks,
-                return_exceptions=return_exceptions,
-            )
+        # Wait for *all* meta tasks; a cancelled one must not end the wait early
+        # (it would make `gather` raise at once, while the others still spawn).
+        meta_results = await gather(
+            *self._meta_tasks_cancelled,
+            *not_cancelled_meta_tasks,
+            return_exceptions=True,
+        )
+        if not return_exceptions:
+            for meta_result in meta_results:
+                if isinstance(meta_result, Exception):
+                    raise meta_result
         self._meta_tasks_cancelled.clear()
         self._group_meta_tasks_running.clear()
         await gather(
